@@ -129,9 +129,9 @@ open ConjureVerif.Boxing
 theorem gen_boxing_sources :
     Gen.CodegenContextSrc.hashes.lookup "Context::needs_box" = some 6212673282279784620 /- "{matchdef{Type::Primitive(_)=>false,Type::Optional(def)=>self.needs_box(def.item_type()),Type::List(_)|Type::Set(_)|Type::Map(_)=>false,Type::Reference(def)=>self.ref_needs_box(def),Type::External(def)=>self.needs_box(def.fallback()),}}" -/ ∧
     Gen.CodegenContextSrc.hashes.lookup "Context::ref_needs_box" = some 16980039490533604179 /- "{letctx=&self.types[name];match&ctx.def{TypeDefinition::Alias(def)=>self.needs_box(def.alias()),TypeDefinition::Enum(_)=>false,TypeDefinition::Object(_)|TypeDefinition::Union(_)=>true,}}" -/ ∧
-    Gen.CodegenContextSrc.hashes.lookup "Context::rust_type_inner" = some 6597268518036500814 /- "{matchdef{Type::Primitive(def)=>match*def{PrimitiveType::String=>self.string_ident(this_type),PrimitiveType::Datetime=>quote!(conjure_object::DateTime<conjure_object::Utc>),PrimitiveType::Integer=>quote!(i32),PrimitiveType::Double=>{ifkey{quote!(conjure_object::DoubleKey)}else{quote!(f64)}}PrimitiveType::Safelong=>quote!(conjure_object::SafeLong),PrimitiveType::Binary=>quote!(conjure_object::Bytes),PrimitiveType::Any=>quote!(conjure_object::Any),PrimitiveType::Boolean=>quote!(bool),PrimitiveType::Uuid=>quote!(conjure_object::Uuid),PrimitiveType::Rid=>quote!(conjure_object::ResourceIdentifier),PrimitiveType::Bearertoken=>quote!(conjure_object::BearerToken),},Type::Optional(def)=>{letoption=self.option_ident(this_type);letitem=self.rust_type_inner(this_type,def.item_type(),key);quote!(#option<#item>)}Type::List(def)=>{letvec=self.vec_ident(this_type);letitem=self.rust_type_inner(this_type,def.item_type(),key);quote!(#vec<#item>)}Type::Set(def)=>{letitem=self.rust_type_inner(this_type,def.item_type(),true);quote!(std::collections::BTreeSet<#item>)}Type::Map(def)=>{letkey=self.rust_type_inner(this_type,def.key_type(),true);letvalue=self.rust_type(this_type,def.value_type());quote!(std::collections::BTreeMap<#key,#value>)}Type::Reference(def)=>self.type_path(this_type,def),Type::External(def)=>self.rust_type_inner(this_type,def.fallback(),key),}}" -/ ∧
+    Gen.CodegenContextSrc.hashes.lookup "Context::rust_type_inner" = some 759703829858553174 /- "{matchdef{Type::Primitive(def)=>match*def{PrimitiveType::String=>self.string_ident(this_type),PrimitiveType::Datetime=>quote!(conjure_object::DateTime<conjure_object::Utc>),PrimitiveType::Integer=>quote!(i32),PrimitiveType::Double=>{ifkey{quote!(conjure_object::DoubleKey)}else{quote!(f64)}}PrimitiveType::Safelong=>quote!(conjure_object::SafeLong),PrimitiveType::Binary=>quote!(conjure_object::Bytes),PrimitiveType::Any=>quote!(conjure_object::Any),PrimitiveType::Boolean=>quote!(bool),PrimitiveType::Uuid=>quote!(conjure_object::Uuid),PrimitiveType::Rid=>quote!(conjure_object::ResourceIdentifier),PrimitiveType::Bearertoken=>quote!(conjure_object::BearerToken),},Type::Optional(def)=>{letoption=self.option_ident(this_type);letitem=self.rust_type_inner(this_type,def.item_type(),key);quote!(#option<#item>)}Type::List(def)=>{letvec=self.vec_ident(this_type);letitem=self.rust_type_inner(this_type,def.item_type(),key);quote!(#vec<#item>)}Type::Set(def)=>{letitem=self.rust_type_inner(this_type,def.item_type(),true);quote!(std::collections::BTreeSet<#item>)}Type::Map(def)=>{letvalue=self.rust_type_inner(this_type,def.value_type(),key);letkey=self.rust_type_inner(this_type,def.key_type(),true);quote!(std::collections::BTreeMap<#key,#value>)}Type::Reference(def)=>self.type_path(this_type,def),Type::External(def)=>self.rust_type_inner(this_type,def.fallback(),key),}}" -/ ∧
     Gen.CodegenContextSrc.hashes.lookup "Context::boxed_rust_type" = some 6237657713517485795 /- "{matchdef{Type::Optional(def)=>{letoption=self.option_ident(this_type);letitem=self.boxed_rust_type(this_type,def.item_type());quote!(#option<#item>)}Type::Reference(def)=>self.ref_boxed_rust_type(this_type,def),Type::External(def)=>self.boxed_rust_type(this_type,def.fallback()),def=>self.rust_type(this_type,def),}}" -/ ∧
-    Gen.CodegenContextSrc.hashes.lookup "Context::ref_boxed_rust_type" = some 11848642329418232511 /- "{letctx=&self.types[name];letneeds_box=match&ctx.def{TypeDefinition::Alias(def)=>self.needs_box(def.alias()),TypeDefinition::Enum(_)=>false,TypeDefinition::Object(_)=>match&self.types[this_type].def{TypeDefinition::Union(_)=>false,_=>true,},TypeDefinition::Union(_)=>true,};letunboxed=self.type_path(this_type,name);ifneeds_box{letbox_=self.box_ident(name);quote!(#box_<#unboxed>)}else{unboxed}}" -/ ∧
+    Gen.CodegenContextSrc.hashes.lookup "Context::ref_boxed_rust_type" = some 15402356831597770747 /- "{letctx=&self.types[name];letneeds_box=match&ctx.def{TypeDefinition::Alias(def)=>self.needs_box(def.alias()),TypeDefinition::Enum(_)=>false,TypeDefinition::Object(_)=>match&self.types[this_type].def{TypeDefinition::Union(_)=>false,_=>true,},TypeDefinition::Union(_)=>true,};letunboxed=self.type_path(this_type,name);ifneeds_box{letbox_=self.box_ident(this_type);quote!(#box_<#unboxed>)}else{unboxed}}" -/ ∧
     Gen.CodegenObjectsSrc.hashes.lookup "fn generate" = some 12972639228190881497 /- "{letdocs=ctx.docs(def.docs());letname=ctx.type_name(def.type_name().name());letmuttype_attrs=vec![quote!(#[serde(crate=\"conjure_object::serde\")])];letmutderives=vec![\"Debug\",\"Clone\",\"conjure_object::serde::Serialize\",\"conjure_object::serde::Deserialize\",];ifdef.fields().iter().any(|v|ctx.has_double(v.type_())){derives.push(\"conjure_object::private::Educe\");type_attrs.push(quote!(#[educe(PartialEq,Eq,PartialOrd,Ord,Hash)]));}else{derives.push(\"PartialEq\");derives.push(\"Eq\");derives.push(\"PartialOrd\");derives.push(\"Ord\");derives.push(\"Hash\");}ifdef.fields().iter().all(|v|ctx.is_copy(v.type_())){derives.push(\"Copy\");}letderives=derives.iter().map(|s|s.parse::<TokenStream>().unwrap());type_attrs.insert(0,quote!(#[derive(#(#derives),*)]));letfield_attrs=def.fields().iter().map(|s|{letbuilder_attr=field_builder_attr(ctx,def,s);letserde_attr=serde_field_attr(ctx,def,s);leteduce_attr=ifctx.is_double(s.type_()){quote!{#[educe(PartialEq(method(conjure_object::private::DoubleOps::eq)),Ord(method(conjure_object::private::DoubleOps::cmp)),Hash(method(conjure_object::private::DoubleOps::hash)),)]}}else{quote!()};quote!{#builder_attr#serde_attr#educe_attr}});letfields=def.fields().iter().map(|f|ctx.field_name(f.field_name()));letboxed_types=&def.fields().iter().map(|s|ctx.boxed_rust_type(def.type_name(),s.type_())).collect::<Vec<_>>();letconstructor=generate_constructor(ctx,def);letaccessors=def.fields().iter().map(|s|{letdocs=ctx.docs(s.docs());letdeprecated=ctx.deprecated(s.deprecated());letname=ctx.field_name(s.field_name());letret_type=ctx.borrowed_rust_type(def.type_name(),s.type_());letborrow=ctx.borrow_rust_type(quote!(self.#name),s.type_());quote!(#docs#deprecated#[inline]pubfn#name(&self)->#ret_type{#borrow})});quote!{#docs#(#type_attrs)*#[conjure_object::private::staged_builder::staged_builder]#[builder(crate=conjure_object::private::staged_builder,update,inline,)]pubstruct#name{#(#field_attrs#fields:#boxed_types,)*}impl#name{#constructor#(#accessors)*}}}" -/ ∧
     Gen.CodegenUnionsSrc.hashes.lookup "fn generate_enum" = some 8449921773393489155 /- "{letname=ctx.type_name(def.type_name().name());letmuttype_attrs=vec![];letmutderives=vec![\"Debug\",\"Clone\"];ifdef.union_().iter().any(|v|ctx.has_double(v.type_())){derives.push(\"conjure_object::private::Educe\");type_attrs.push(quote!(#[educe(PartialEq,Eq,PartialOrd,Ord,Hash)]));}else{derives.push(\"PartialEq\");derives.push(\"Eq\");derives.push(\"PartialOrd\");derives.push(\"Ord\");derives.push(\"Hash\");}letderives=derives.iter().map(|s|s.parse::<TokenStream>().unwrap());type_attrs.insert(0,quote!(#[derive(#(#derives),*)]));letdocs=def.union_().iter().map(|f|ctx.docs(f.docs()));letdeprecated=def.union_().iter().map(|f|ctx.deprecated(f.deprecated()));letvariants=&variants(ctx,def);lettypes=&def.union_().iter().map(|f|{letattr=ifctx.is_double(f.type_()){quote!{#[educe(PartialEq(method(conjure_object::private::DoubleOps::eq)),Ord(method(conjure_object::private::DoubleOps::cmp)),Hash(method(conjure_object::private::DoubleOps::hash)),)]}}else{quote!()};letty=ctx.boxed_rust_type(def.type_name(),f.type_());quote!(#attr#ty)}).collect::<Vec<_>>();letunknown=unknown(ctx,def);letunknown_variant=ifctx.exhaustive(){quote!()}else{quote!{#[doc=\"Anunknownvariant.\"]#unknown(#unknown),}};quote!{#(#type_attrs)*pubenum#name{#(#docs#deprecated#variants(#types),)*#unknown_variant}}}" -/ ∧
     Gen.CodegenAliasesSrc.hashes.lookup "fn generate" = some 9976687671691517758 /- "{letname=ctx.type_name(def.type_name().name());letalias=ctx.rust_type(def.type_name(),def.alias());letresult=ctx.result_ident(def.type_name());letdocs=ctx.docs(def.docs());letmuttype_attrs=vec![quote!(#[serde(crate=\"conjure_object::serde\",transparent)])];letmutfield_attrs=vec![];letmutderives=vec![\"Debug\",\"Clone\",\"conjure_object::serde::Deserialize\",\"conjure_object::serde::Serialize\",];ifctx.is_copy(def.alias()){derives.push(\"Copy\");}ifctx.is_double(def.alias()){derives.push(\"conjure_object::private::Educe\");type_attrs.push(quote!(#[educe(PartialEq,Eq,PartialOrd,Ord,Hash)]));field_attrs.push(quote!{#[educe(PartialEq(method(conjure_object::private::DoubleOps::eq)),Ord(method(conjure_object::private::DoubleOps::cmp)),Hash(method(conjure_object::private::DoubleOps::hash)),)]})}else{derives.push(\"PartialEq\");derives.push(\"Eq\");derives.push(\"PartialOrd\");derives.push(\"Ord\");derives.push(\"Hash\");}ifctx.is_default(def.alias()){derives.push(\"Default\");}letderives=derives.iter().map(|s|s.parse::<TokenStream>().unwrap());type_attrs.insert(0,quote!(#[derive(#(#derives),*)]));letdisplay=ifctx.is_display(def.alias()){quote!{implstd::fmt::Displayfor#name{fnfmt(&self,fmt:&mutstd::fmt::Formatter<'_>)->std::fmt::Result{std::fmt::Display::fmt(&self.0,fmt)}}}}else{quote!()};letplain=ifctx.is_plain(def.alias()){quote!{implconjure_object::Plainfor#name{fnfmt(&self,fmt:&mutstd::fmt::Formatter<'_>)->std::fmt::Result{conjure_object::Plain::fmt(&self.0,fmt)}}implconjure_object::FromPlainfor#name{typeErr=<#aliasasconjure_object::FromPlain>::Err;#[inline]fnfrom_plain(s:&str)->#result<#name,Self::Err>{conjure_object::FromPlain::from_plain(s).map(#name)}}}}else{quote!()};letfrom_iterator=matchctx.is_from_iter(def.type_name(),def.alias()){Some(item)=>quote!{implstd::iter::FromIterator<#item>for#name{fnfrom_iter<T>(iter:T)->SelfwhereT:std::iter::IntoIterator<Item=#item>,{#name(std::iter::FromIterator::from_iter(iter))}}},None=>quote!(),};letdealiased_type=ctx.rust_type(def.type_name(),ctx.dealiased_type(def.alias()));quote!{#docs#(#type_attrs)*pubstruct#name(#(#field_attrs)*pub#alias);#display#plain#from_iteratorimplstd::convert::From<#dealiased_type>for#name{#[inline]fnfrom(v:#dealiased_type)->Self{#name(std::convert::From::from(v))}}implstd::ops::Dereffor#name{typeTarget=#alias;#[inline]fnderef(&self)->&#alias{&self.0}}implstd::ops::DerefMutfor#name{#[inline]fnderef_mut(&mutself)->&mut#alias{&mutself.0}}}}" -/ := by decide +kernel
